@@ -21,7 +21,7 @@ Definition run_hdr_core (p : profile) (m : mem) : res dref * list string :=
 Definition hlines_walk (p : profile) (m : mem) (r : dref) : list string :=
   let b := d_off r + 16 in
   let '(items, e) := tagiter_run (iter_fuel (d_plen r)) p HHdrTagH m b (d_plen r) 0 in
-  (map (fun t => line "tag" (sHTagLine m t)) items ++ [line "tags" (sEnd e)] ++ lines_iter_nth HHdrTagH items e)%list.
+  (map (fun t => line "tag" (sHTagLine m t)) items ++ [line "tags" (sEnd e)] ++ lines_iter_nth p HHdrTagH m b (d_plen r) items e)%list.
 
 Definition run_hdr_walk (p : profile) (bs : list byte) : list string :=
   let m := {| m_base := 0; m_bytes := bs |} in
